@@ -26,6 +26,21 @@ static inline bool avoiding(const Json &plan, const char *id)
         return false;
 }
 
+// Caller-ABI seam.  The SysV x86-64 ABI leaves the upper 32 bits of a register that carries an `int` argument undefined; a C caller
+// that narrows a 64-bit value (`f((int) x)` compiles to a plain jump) leaves them non-zero.  iarg() builds the register value for one
+// int argument of the call being made: clean, or with the plan's garbage above bit 31.  `all` = also for the (function, argument)
+// pairs of open finding F15; otherwise those are passed clean.
+struct IntUpper {
+        uint32_t dirt = 0, mask = 0;
+        bool all = false;
+};
+extern __thread IntUpper t_iu;
+extern __thread bool t_iu_used; // the call being made carries at least one dirty argument
+long iarg(const char *fn, int argidx, int v);
+bool abi_known_bad(const char *fn, int argidx);
+typedef long (*abi_fn7)(long, long, long, long, long, long, long);
+#define ABI_CALL(fn, a0, a1, a2, a3, a4, a5, a6) ((abi_fn7) (void *) (fn))((long) (a0), (long) (a1), (long) (a2), (long) (a3), (long) (a4), (long) (a5), (long) (a6))
+
 // record a memory fault as a violation of C05 (or C15 for library data)
 void report_fault(RunResult &rr, Hist &h, const FaultInfo &fi, const char *where);
 Slot *make_custom_hufftables(const Json &hf, const std::vector<uint8_t> &data, uint64_t fill, GuardCtx &gc, RunResult &rr, Hist &h, bool &faulted);
